@@ -734,7 +734,7 @@ impl TransactionBuilder {
 
         // after finalizing the improvement we need to actually add these results to the builder
         for output in outputs.iter() {
-            if let Some(associated) = associated_indices.get(output) {
+            if let Some(associated) = associated_indices.remove(output) {
                 for i in associated.iter() {
                     let input = &available_inputs[*i];
                     let input_fee = self.fee_for_input(
